@@ -139,7 +139,7 @@ pub struct HistKnobs {
 
 impl HistKnobs {
     pub fn for_focus(focus: Focus) -> Self {
-        Self { focus, max_ops: 24, max_clients: 4, min_clients: 1, model: ModelKnobs::default(), max_text: 48 }
+        Self { focus, max_ops: 24, max_clients: 4, min_clients: 1, model: ModelKnobs::default(), max_text: 1100 }
     }
     pub fn miri() -> Self {
         Self {
@@ -372,6 +372,14 @@ pub fn gen_plan(rng: &mut Rng, k: &HistKnobs) -> HistPlan {
                     pos: rng.below(65536) as u16,
                     tag: if rng.chance(1, 4) { None } else { Some(gen::gen_tag(rng)) },
                 }),
+            }
+            // now and then the same operation again (second, third, fourth time in a row)
+            if rng.chance(1, 12) {
+                if let Some(last) = ops.last().cloned() {
+                    for _ in 0..rng.range(1, 3) {
+                        ops.push(last.clone());
+                    }
+                }
             }
         }
         if k.min_clients >= 2 {
